@@ -14,6 +14,11 @@ def findId (id : Bytes) : List VP → Option VP
 
 def bucketSum (l : List VP) : Int := (l.map (·.power)).sum
 
+/-- Power of an optional entry (0 when absent). -/
+def optPower : Option VP → Int
+  | some e => e.power
+  | none => 0
+
 theorem bucketSum_cons (e : VP) (l : List VP) : bucketSum (e :: l) = e.power + bucketSum l := by
   simp [bucketSum]
 
@@ -75,21 +80,26 @@ theorem findId_of_mem {l : List VP} (hn : (l.map (·.id)).Nodup) {e : VP} (he : 
 
 /-! ### bucketRemove / bucketInsert -/
 
+theorem bucketRemove_cons_eq {id : Bytes} {x : VP} (h : x.id = id) (r : List VP) :
+    bucketRemove id (x :: r) = bucketRemove id r := by
+  simp [bucketRemove, h]
+
+theorem bucketRemove_cons_ne {id : Bytes} {x : VP} (h : x.id ≠ id) (r : List VP) :
+    bucketRemove id (x :: r) = x :: bucketRemove id r := by
+  simp [bucketRemove, h]
+
 theorem findId_remove (id id' : Bytes) (l : List VP) :
     findId id' (bucketRemove id l) = if id = id' then none else findId id' l := by
   induction l with
   | nil => simp [bucketRemove, findId]
   | cons x r ih =>
-    unfold bucketRemove at *
     by_cases hx : x.id = id
-    · have : decide (x.id ≠ id) = false := by simp [hx]
-      rw [List.filter_cons_of_neg (by simp [hx])]
-      rw [ih]
+    · rw [bucketRemove_cons_eq hx, ih]
       by_cases hi : id = id'
       · simp [hi]
       · have : ¬ x.id = id' := by rw [hx]; exact hi
         simp [hi, findId, this]
-    · rw [List.filter_cons_of_pos (by simp [hx])]
+    · rw [bucketRemove_cons_ne hx]
       simp only [findId]
       by_cases hx' : x.id = id'
       · have : ¬ id = id' := by intro e; exact hx (hx'.trans e.symm)
@@ -100,38 +110,37 @@ theorem mem_remove {id : Bytes} {l : List VP} {e : VP} : e ∈ bucketRemove id l
   simp [bucketRemove]
 
 theorem nodup_remove {id : Bytes} {l : List VP} (hn : (l.map (·.id)).Nodup) : ((bucketRemove id l).map (·.id)).Nodup := by
-  unfold bucketRemove
   induction l with
-  | nil => simp
+  | nil => simp [bucketRemove]
   | cons x r ih =>
     simp only [List.map_cons, List.nodup_cons] at hn
     by_cases hx : x.id = id
-    · rw [List.filter_cons_of_neg (by simp [hx])]; exact ih hn.2
-    · rw [List.filter_cons_of_pos (by simp [hx])]
+    · rw [bucketRemove_cons_eq hx]; exact ih hn.2
+    · rw [bucketRemove_cons_ne hx]
       simp only [List.map_cons, List.nodup_cons]
       refine ⟨?_, ih hn.2⟩
       intro hm
       obtain ⟨e, he, hid⟩ := List.mem_map.mp hm
-      exact hn.1 (List.mem_map.mpr ⟨e, (List.mem_filter.mp he).1, hid⟩)
+      exact hn.1 (List.mem_map.mpr ⟨e, (mem_remove.mp he).1, hid⟩)
 
 theorem bucketSum_remove {id : Bytes} {l : List VP} (hn : (l.map (·.id)).Nodup) :
-    bucketSum (bucketRemove id l) = bucketSum l - (match findId id l with | some e => e.power | none => 0) := by
-  unfold bucketRemove
+    bucketSum (bucketRemove id l) = bucketSum l - optPower (findId id l) := by
   induction l with
-  | nil => simp [bucketSum, findId]
+  | nil => simp [bucketRemove, bucketSum, findId, optPower]
   | cons x r ih =>
     simp only [List.map_cons, List.nodup_cons] at hn
     by_cases hx : x.id = id
-    · rw [List.filter_cons_of_neg (by simp [hx])]
+    · rw [bucketRemove_cons_eq hx]
       have hnone : findId id r = none := by
         apply findId_none_of
         intro e he hid
         exact hn.1 (List.mem_map.mpr ⟨e, he, hid.trans hx.symm⟩)
       have := ih hn.2
       rw [hnone] at this
-      simp only [findId, hx, if_true, bucketSum_cons]
+      simp only [optPower] at this
+      simp only [findId, hx, if_true, bucketSum_cons, optPower]
       rw [this]; omega
-    · rw [List.filter_cons_of_pos (by simp [hx])]
+    · rw [bucketRemove_cons_ne hx]
       simp only [findId, hx, if_false, bucketSum_cons]
       rw [ih hn.2]; omega
 
@@ -212,16 +221,12 @@ theorem bucketsTotal_set (b : AMap Nat (List VP)) {i : Nat} (hi : i < 71) (l : L
   have := sum_map_update (l := List.range 71) List.nodup_range
     (f := fun j => bucketSum (getBucket b j)) (g := fun j => bucketSum (getBucket (b.set i l) j))
     (i := i) (List.mem_range.mpr hi)
-    (fun j hj => by simp only; rw [getBucket_set]; simp [Ne.symm hj])
-  rw [this]
-  simp only
-  rw [getBucket_set]; simp
+    (fun j hj => by rw [getBucket_set, if_neg (Ne.symm hj)])
+  rw [this, getBucket_set, if_pos rfl]
 
-theorem bucketIdx_lt (id : Bytes) : bucketIdx id < 71 := by
-  unfold bucketIdx
-  cases id with
-  | nil => simp
-  | cons x r => simp only; omega
+theorem bucketIdx_lt : ∀ id : Bytes, bucketIdx id < 71
+  | [] => by decide
+  | x :: _ => by show x.toNat % 71 < 71; omega
 
 /-! ### Well-formed buckets, closed form of `loadVpr` -/
 
@@ -264,7 +269,7 @@ theorem loadInv_entries (D : AMap Nat (List VP)) (j : Nat) (hwf : BucketWF j (ge
         by_cases hij : j = i
         · subst hij; simp [h.buckets j]
         · have hij' : ¬ i = j := fun e => hij e.symm
-          simp only [hij, if_false]; rw [h.buckets i]
+          simp only [hij, if_false]; rw [h.buckets i]; simp [hij']
       · rw [AMap.get_set, h.powers id]
         by_cases hlt : bucketIdx id < j
         · have : ¬ e.id = id := by intro e'; rw [← e', hidx] at hlt; omega
@@ -310,7 +315,7 @@ theorem loadInv_fold (D : AMap Nat (List VP)) (hwf : ∀ i, BucketWF i (getBucke
   | 0 => by
     refine ⟨fun i => ?_, fun id => ?_, ?_⟩
     · simp [Vpr.empty, getBucket]
-    · simp [Vpr.empty]
+    · simp [Vpr.empty, findId]
     · simp [Vpr.empty, bucketSum]
   | n + 1 => by
     rw [List.range_succ, List.foldl_append]
